@@ -344,10 +344,16 @@ impl CallStack {
             context_index = self.get_current_element_index() + 1;
         }
 
-        let context_element = self
-            .get_callstack_mut()
-            .get_mut((context_index - 1) as usize)
-            .unwrap();
+        let context_element = usize::try_from(context_index)
+            .ok()
+            .and_then(|index| index.checked_sub(1))
+            .and_then(|frame_index| self.get_callstack_mut().get_mut(frame_index))
+            .ok_or_else(|| {
+                StoryError::InvalidStoryState(format!(
+                    "Could not find the frame of temporary variable: {}",
+                    name
+                ))
+            })?;
 
         if !declare_new && !context_element.temporary_variables.contains_key(&name) {
             return Err(StoryError::InvalidStoryState(format!(
@@ -393,8 +399,10 @@ impl CallStack {
             context_index = self.get_current_element_index() + 1;
         }
 
-        let context_element = self.get_callstack().get((context_index - 1) as usize);
-        let var_value = context_element.unwrap().temporary_variables.get(name);
+        // A context index that names no frame (possible in a hand-edited save) finds no variable
+        let frame_index = usize::try_from(context_index).ok()?.checked_sub(1)?;
+        let context_element = self.get_callstack().get(frame_index)?;
+        let var_value = context_element.temporary_variables.get(name);
 
         var_value.cloned()
     }
